@@ -19,7 +19,7 @@ SPECS["C17"] = {
                       "transition = (state, call kind, npts relation same/different/omitted/invalid)"),
     "real": ["esutil.integrate QGauss/QGauss2/qgauss/gauleg (Python and _cgauleg C)", "esutil.stat.interplin"],
     "stub": [],
-    "expect_reach": ["point_count_given_as_a_numpy_integer", "two_dimensional_integrand_relies_on_full_grids", "object_ran_its_own_demonstration", "integrand_returns_an_array_it_keeps", "memoised_integrand_values_handed_out_again", "npts_changed_on_live_object", "call_after_aborted_call", "integrand_raised",
+    "expect_reach": ["abscissae_and_ordinates_are_big_endian_table_columns", "integration_ranges_are_arrays_refilled_in_place", "point_count_given_as_a_numpy_integer", "two_dimensional_integrand_relies_on_full_grids", "object_ran_its_own_demonstration", "integrand_returns_an_array_it_keeps", "memoised_integrand_values_handed_out_again", "npts_changed_on_live_object", "call_after_aborted_call", "integrand_raised",
                      "bad_npts_rejected", "bad_range_rejected", "sibling_table_same_length_and_end_points",
                      "integrand_reenters_the_same_object", "interval_end_points_of_type_float32",
                      "caller_edited_a_result_in_place"],
@@ -136,7 +136,7 @@ SPECS["C01"] = _rec(
      "header_dict_read_from_an_earlier_file", "caller_edited_a_header_dict_it_was_handed",
      "caller_edited_a_result_in_place", "file_names_expanded_by_esutil_var", "file_names_expanded_by_esutil_home",
      "caller_refilled_its_work_buffer_after_a_write", "header_end_aligned_to_a_block_boundary",
-     "header_text_longer_than_a_megabyte", "writer_dropped_without_close", "several_writes_on_one_handle", "reopen_for_append", "working_directory_changed_while_objects_were_open", "caller_looked_at_an_open_object", "write_rejected_for_its_header_argument_then_repeated"],
+     "replacement_with_same_size_and_time_stamp", "header_text_longer_than_a_megabyte", "writer_dropped_without_close", "several_writes_on_one_handle", "reopen_for_append", "working_directory_changed_while_objects_were_open", "caller_looked_at_an_open_object", "write_rejected_for_its_header_argument_then_repeated"],
     ("seeded search over dtypes x values x headers x entry points x prior path contents x caller interleavings; every read "
      "is compared bit-for-bit with the written table and the file's bytes are parsed independently after every write. "
      "Sampling, not proof."),
@@ -217,7 +217,7 @@ SPECS["C19"] = {
              "esutil.stat.interplin", "scipy.integrate.cumulative_trapezoid", "numpy.linalg.cholesky"],
     "stub": ["the random source (SimRNG, legacy and new-style duck types): every deviate is drawn, recorded and sometimes "
              "forced to an edge by the simulator"],
-    "expect_reach": ["count_given_as_a_numpy_integer", "cap_centre_given_as_float32_scalars", "box_edge_exactly_zero", "index_range_beyond_4_byte_integers", "edge_value", "repeated_value", "target_value", "forced_rotation_path", "zero_width_box",
+    "expect_reach": ["caller_refilled_mean_and_covariance_after_construction", "count_given_as_a_numpy_integer", "cap_centre_given_as_float32_scalars", "box_edge_exactly_zero", "index_range_beyond_4_byte_integers", "edge_value", "repeated_value", "target_value", "forced_rotation_path", "zero_width_box",
                      "closed_end_value", "deviate_exactly_one", "deviate_on_a_run_of_equal_cumulative_values",
                      "same_density_object_with_changed_parameters", "deviate_equal_to_a_tabulated_cumulative_value",
                      "sampler_object_drawn_from_again",
@@ -291,7 +291,7 @@ SPECS["C12"] = {
     "real": ["esutil.htm (Python, _htmc C++ and the HTM library)", "esutil.recfile via read_pairs", "glibc stdio",
              "kernel file system"],
     "stub": [],
-    "expect_reach": ["oneshot_object_used_for_something_else_in_between", "coordinates_given_as_python_sequences", "radius_given_as_a_float32_scalar", "first_set_of_more_than_100000_points", "search_circle_covers_millions_of_leaves", "matcher_reused", "match_after_rejected_call", "stale_pair_file_at_output_path",
+    "expect_reach": ["oneshot_object_used_for_something_else_in_between", "earlier_pair_files_read_again", "coordinates_given_as_python_sequences", "radius_given_as_a_float32_scalar", "first_set_of_more_than_100000_points", "search_circle_covers_millions_of_leaves", "matcher_reused", "match_after_rejected_call", "stale_pair_file_at_output_path",
                      "interleaved_matchers", "rejected_call_size_mismatch", "rejected_call_unwritable",
                      "oneshot_compared", "second_depth_compared", "oneshot_object_reused",
                      "oneshot_buffer_refilled_in_place", "presented_swapped", "presented_strided",
